@@ -51,10 +51,10 @@ PLANS = {'small': PLAN_SMALL, 'smallq': PLAN_SMALL_QUICK, 'n3': PLAN_N3, 'n3q': 
          'n4': PLAN_N4}
 
 
-def cases(tier):
+def cases(tier, sigrev=False):
   for n, types, variants, exports, pname in spec(tier):
     yield from universe.graph_cases([(n, types, variants, exports)],
-                                    {'rp': pname})
+                                    {'rp': pname}, sigrev=sigrev and n <= 2)
 
 
 def plan(tier, seed):
